@@ -76,29 +76,31 @@ let () =
       let toks = split_on ' ' line in
       let toks = List.filter (fun t -> t.[0] <> 'M') toks in
       let ops = List.map parse_op toks in
-      (* model *)
-      let ms = ref init in
-      let rb = Buffer.create 64 in
-      let crashed = ref None in
-      List.iter (fun o ->
-        if !crashed = None then begin
-          let (s', ob) = step c !ms o in
-          ms := s';
+      (* a request far outside anything allocatable (only reachable in the huge-argument batch) exhausts the
+         stack when a list of that many bytes is built: reported as MODEL-RESOURCE *)
+      let guard f = try f () with Stack_overflow | Out_of_memory | Failure _ | Invalid_argument _ -> "MODEL-RESOURCE" in
+      let rline = guard (fun () ->
+        let ms = ref init in
+        let rb = Buffer.create 64 in
+        let crashed = ref None in
+        List.iter (fun o ->
+          if !crashed = None then begin
+            let (s', ob) = step c !ms o in
+            ms := s';
+            match show ob with
+            | Ok t -> (if Buffer.length rb > 0 then Buffer.add_char rb ';'); Buffer.add_string rb t
+            | Error t -> crashed := Some t
+          end) ops;
+        match !crashed with Some t -> t | None -> Buffer.contents rb) in
+      let sline = guard (fun () ->
+        let ss = ref sinit in
+        let sb = Buffer.create 64 in
+        List.iter (fun o ->
+          let (s', ob) = s_step !ss o in
+          ss := s';
           match show ob with
-          | Ok t -> (if Buffer.length rb > 0 then Buffer.add_char rb ';'); Buffer.add_string rb t
-          | Error t -> crashed := Some t
-        end) ops;
-      (match !crashed with
-       | Some t -> print_string ("R " ^ t ^ "\n")
-       | None -> print_string ("R " ^ Buffer.contents rb ^ "\n"));
-      (* specification *)
-      let ss = ref sinit in
-      let sb = Buffer.create 64 in
-      List.iter (fun o ->
-        let (s', ob) = s_step !ss o in
-        ss := s';
-        match show ob with
-        | Ok t | Error t -> (if Buffer.length sb > 0 then Buffer.add_char sb ';'); Buffer.add_string sb t) ops;
-      print_string ("S " ^ Buffer.contents sb ^ "\n")
+          | Ok t | Error t -> (if Buffer.length sb > 0 then Buffer.add_char sb ';'); Buffer.add_string sb t) ops;
+        Buffer.contents sb) in
+      print_string ("R " ^ rline ^ "\nS " ^ sline ^ "\n")
     done
   with End_of_file -> ()
